@@ -135,6 +135,18 @@ def run (args : List String) : String :=
           | .ok b => if keyClash b then "nondet" else "ok " ++ render r ++ " back " ++ render b
       | _, _, _ => "bad-op"
     | _ => "bad-op"
+  -- the result of a conversion is a value of its own (the model's `convert` builds it from the source's content):
+  -- what the caller does to it afterwards does not reach the source
+  | "convalias" :: rest =>
+    match splitBar rest with
+    | [st, tt, vt] =>
+      match parseType st, parseType tt, parseVal vt with
+      | some (s, []), some (t, []), some (v, []) =>
+        match convert nativeOps t v with
+        | .ok _ => "ok unchanged"
+        | .error _ => "err"
+      | _, _, _ => "bad-op"
+    | _ => "bad-op"
   | "convre" :: rest =>
     -- source type | target type | value 1 | value 2 : the same destination is converted into twice (types
     -- without maps); the second conversion gives what a fresh destination gives, value 1 does not matter
